@@ -1454,3 +1454,119 @@ Proof.
   destruct Hr as [[ps' ->]|[->| ->]]; [|split; discriminate|split; discriminate].
   destruct sw; [destruct (acquire _ _ _) as [[? ?] ?]|]; split; discriminate.
 Qed.
+
+(* ------------------------------------------------------------------ which commits keep a captured domain *)
+(* A writer operation leaves a stored pointer q as it is unless it is the commit of a
+   writer that has already committed the domain starting where q starts (an update of q). *)
+Definition no_update_of (st : db) (x : wop) (q : pointer) : Prop :=
+  match x with
+  | WCommit w _ _ => match d_writers st !! w with
+                     | Some wr => w_prev wr = 0 \/ w_start wr <> p_start q
+                     | None => True
+                     end
+  | _ => True
+  end.
+Fixpoint no_update_run (st : db) (ws : list wop) (q : pointer) : Prop :=
+  match ws with
+  | [] => True
+  | x :: rest => no_update_of st x q /\ no_update_run (fst (wstep st x)) rest q
+  end.
+
+Lemma update_keeps ps p ps' q : idx_ok ps -> ptr_wf p -> update ps p = inl ps' ->
+  In q ps -> p_start q <> p_start p -> In q ps'.
+Proof.
+  intros Hok Hwf H Hq Hne. destruct (update_ok _ _ _ Hok Hwf H) as (_ & k & old & Hg & Hs & ->).
+  assert (Hdec : ps = firstn (Z.to_nat k) ps ++ old :: skipn (S (Z.to_nat k)) ps).
+  { pose proof (getp_Some _ _ _ Hg) as Hk. unfold getp in Hg. destruct (Z.ltb_spec k 0); [lia|].
+    rewrite <- (firstn_skipn (Z.to_nat k) ps) at 1. f_equal.
+    clear -Hg. revert Hg. generalize (Z.to_nat k). induction ps as [|x l IH]; intros [|n] Hg; simpl in *; try discriminate.
+    - inversion Hg. reflexivity.
+    - apply IH. assumption. }
+  rewrite Hdec in Hq. apply in_app_or in Hq. destruct Hq as [Hq|[<-|Hq]].
+  - apply in_or_app. left. assumption.
+  - congruence.
+  - apply in_or_app. right. right. assumption.
+Qed.
+
+Lemma wstep_keeps st x q :
+  Inv st -> wlegal st x -> no_update_of st x q -> In q (d_ptrs st) -> In q (d_ptrs (fst (wstep st x))).
+Proof.
+  intros HI [Hr _] Hn Hq. pose proof HI as (Hidx & Hpf & Hfo & Hfs & Hw).
+  destruct x as [w s e k|w d|w e k|w]; simpl.
+  - unfold open_writer. destruct (d_writers st !! w); [assumption|].
+    destruct (negb (cfg_validate s e)); [assumption|]. destruct (idx_overlap _ _); [assumption|].
+    destruct (acquire _ _ _) as [[? ?] ?]. assumption.
+  - unfold write. destruct (d_writers st !! w) as [wr|]; [|assumption].
+    destruct (w_closed wr); [assumption|]. destruct (get_file _ _); assumption.
+  - simpl in Hn, Hr. unfold commit. destruct (d_writers st !! w) as [wr|] eqn:Ew; [|assumption].
+    destruct (w_closed wr); [assumption|]. destruct (w_preset wr && _); [assumption|].
+    destruct (get_file (d_files st) (w_file wr)) as [f|] eqn:Ef; [|assumption].
+    destruct (N.eqb_spec (f_len f) 0) as [|Hlen]; [assumption|].
+    destruct (resolve_commit_end (d_cap st) wr e) as [ce sw] eqn:Er.
+    destruct (validate_commit_range wr ce sw) eqn:Ev; [simpl|assumption].
+    destruct (Hw w wr Ew) as [Hws Hwe].
+    assert (Hce : ts_in_range ce).
+    { unfold resolve_commit_end in Er. destruct (d_cap st <=? w_fsize wr)%N; [inversion Er; subst; assumption|].
+      destruct (w_preset wr); inversion Er; subst; assumption. }
+    assert (Hlt : w_start wr < ce).
+    { unfold validate_commit_range in Ev.
+      destruct (negb (ts_is_zero (w_prev wr)) && negb (sw && w_preset wr) && (ce <? w_prev wr)); [discriminate|].
+      destruct (Z.ltb_spec (w_start wr) ce); [assumption|discriminate]. }
+    set (ptr := mkPtr (mkTR (w_start wr) ce) (w_file wr) (u32 (f_off f)) (u32 (f_len f))).
+    assert (Hpwf : ptr_wf ptr) by (split; [split; assumption|assumption]).
+    assert (Hk : forall ps', (if ts_is_zero (w_prev wr) then insert (d_ptrs st) ptr else update (d_ptrs st) ptr) = inl ps' ->
+                 In q ps').
+    { intros ps' Hres. unfold ts_is_zero, ts_min in Hres. destruct (Z.eqb_spec (w_prev wr) 0) as [Hz|Hnz].
+      - destruct (insert_mem _ _ _ Hidx Hpwf Hres) as [_ H2]. auto.
+      - apply (update_keeps _ _ _ q Hidx Hpwf Hres Hq). destruct Hn as [Hn|Hn]; [contradiction|].
+        unfold ptr, p_start at 2. simpl. congruence. }
+    destruct (if ts_is_zero (w_prev wr) then insert (d_ptrs st) ptr else update (d_ptrs st) ptr) as [ps'|err];
+      [|assumption].
+    specialize (Hk ps' eq_refl).
+    destruct sw; [destruct (acquire _ _ _) as [[? ?] ?]|]; assumption.
+  - unfold close_writer. destruct (d_writers st !! w) as [wr|]; [|assumption].
+    destruct (w_closed wr); assumption.
+Qed.
+
+Lemma wrun_keeps : forall ws st q,
+  Inv st -> wlegal_run st ws -> no_update_run st ws q -> In q (d_ptrs st) -> In q (d_ptrs (wrun st ws)).
+Proof.
+  induction ws as [|x rest IH]; intros st q HI Hl Hn Hq; simpl; [assumption|].
+  destruct Hl as [Hl Hrest]. destruct Hn as [Hn Hnrest].
+  apply IH; [apply wstep_inv; assumption|assumption|assumption|apply wstep_keeps; assumption].
+Qed.
+
+(* The stability clause of [delc_legal] follows when no nested commit updates the two
+   captured domains (e.g. the nested writers are fresh: their commits insert new domains
+   and extend only those). *)
+Lemma delc_legal_intro st a b sops eops :
+  Inv st -> ts_in_range a -> ts_in_range b ->
+  (forall sd s so a', delete_start lin_resolver (d_ptrs st) a = inl (Some (sd, s, so, a')) ->
+     let called1 := snd (usearch (d_ptrs st) (ts_span_range a 0)) in
+     let st1 := if called1 then wrun st sops else st in
+     (called1 = true -> wlegal_run st sops /\ no_update_run st sops s) /\
+     forall ed e eo b', delete_end lin_resolver (d_ptrs st1) b = inl (Some (ed, e, eo, b')) ->
+       let called2 := snd (usearch (d_ptrs st1) (ts_span_range b 0)) in
+       (called2 = true -> wlegal_run st1 eops /\ no_update_run st1 eops s /\ no_update_run st1 eops e)) ->
+  delc_legal st a b sops eops.
+Proof.
+  intros HI Ha Hb H. unfold delc_legal.
+  destruct (delete_start lin_resolver (d_ptrs st) a) as [[[[[sd s] so] a']|]|r] eqn:Es; try exact I.
+  destruct (H sd s so a' eq_refl) as [H1 H2]. clear H.
+  pose proof (getp_In _ _ _ (delete_start_getp _ _ _ _ _ _ _ Es)) as Hs0.
+  set (called1 := snd (usearch (d_ptrs st) (ts_span_range a 0))) in *.
+  set (st1 := if called1 then wrun st sops else st) in *.
+  assert (HI1 : Inv st1 /\ In s (d_ptrs st1)).
+  { unfold st1. destruct called1; [|split; assumption]. destruct (H1 eq_refl) as [Hl Hn].
+    split; [apply wrun_inv; assumption|apply wrun_keeps; assumption]. }
+  destruct HI1 as [HI1 Hs1].
+  split; [intros Hc; apply (H1 Hc)|].
+  destruct (delete_end lin_resolver (d_ptrs st1) b) as [[[[[ed e] eo] b']|]|r] eqn:Ee; try exact I.
+  specialize (H2 ed e eo b' eq_refl).
+  pose proof (getp_In _ _ _ (delete_end_getp _ _ _ _ _ _ _ Ee)) as He1.
+  set (called2 := snd (usearch (d_ptrs st1) (ts_span_range b 0))) in *.
+  destruct called2.
+  - destruct (H2 eq_refl) as (Hl & Hns & Hne). split; [intros _; assumption|].
+    split; apply wrun_keeps; assumption.
+  - split; [discriminate|]. split; assumption.
+Qed.
